@@ -173,6 +173,27 @@ fn f64s() -> Vec<f64> { vec![0.0, -0.0, 1.5, 1e300, f64::MAX, f64::INFINITY, f64
 fn f32s() -> Vec<f32> { vec![0.0, -0.0, 1.5, 1e30, f32::MAX, f32::INFINITY, f32::NAN, f32::MIN_POSITIVE, 0.1] }
 macro_rules! ints { ($t:ty) => { { let mut v: Vec<$t> = vec![<$t>::MIN, 0, 1, <$t>::MAX]; if <$t>::MIN != 0 { v.push((0 as $t).wrapping_sub(1)); } v.sort(); v.dedup(); v } } }
 
+
+/* ---- histories of two: what an earlier, refused call leaves behind must not reach the next one ---- */
+
+struct RawBytes;
+impl Serialize for RawBytes { fn serialize<S: serde::Serializer>(&self, s: S) -> Result<S::Ok, S::Error> { s.serialize_bytes(b"xy") } }
+#[derive(Serialize)] struct PoisonBytes { id: u32, owner: String, blob: RawBytes }
+#[derive(Serialize)] struct PoisonInner { x: u8 }
+#[derive(Serialize)] struct PoisonNested { id: u32, inner: PoisonInner }
+#[derive(Serialize)] enum PoisonEnum { V { x: u8 } }
+#[derive(Serialize)] struct PoisonVariant { list: Vec<String>, v: PoisonEnum }
+const N_POISON: usize = 3;
+/// a serialization that the serializer refuses after it has already written something; true iff it was refused
+fn poison_encode(k: usize) -> bool {
+    match k {
+        0 => matches!(guarded(|| to_string(&PoisonBytes { id: 7, owner: "carol".into(), blob: RawBytes })), Ok(Err(_))),
+        1 => matches!(guarded(|| to_string(&PoisonNested { id: 7, inner: PoisonInner { x: 1 } })), Ok(Err(_))),
+        _ => matches!(guarded(|| to_string(&PoisonVariant { list: vec!["p".into(), "q".into()], v: PoisonEnum::V { x: 1 } })), Ok(Err(_))),
+    }
+}
+const POISON_TEXTS: [&[u8]; 4] = [b"a=1=2&b", b"%zz=1&a", b"a=x,y&a=%4", b"=&&"];
+
 /* ---- the check on one value ---- */
 
 fn dbg<T: Debug>(t: &T) -> String { format!("{t:?}") }
@@ -225,6 +246,28 @@ fn check_value<T: Top>(ctx: &mut Ctx, shape: &'static str, tier: Tier, index: us
             }
             (_, Some(false)) => ctx.ambiguous(&format!("encoder-output-not-rfc3986-but-round-trips:{shape}")),
             _ => {
+                // histories of two (same thread): after a serialization that was refused half-way, and after a text that was
+                // refused, the same value must still be written as before and the same text must still be read as before
+                for k in 0..N_POISON {
+                    if !poison_encode(k) { continue }
+                    ctx.transitions += 1;
+                    let again = guarded(|| to_string(v));
+                    if !matches!(&again, Ok(Ok(t)) if *t == text) {
+                        ctx.violation(&format!("C09/roundtrip/{shape}/after-refused-serialization:{k}/different-text"), nontrivial,
+                            || witness(json!({"text": text, "after_refused_serialization": k, "observed": format!("{again:?}")})));
+                        return;
+                    }
+                }
+                for (k, pt) in POISON_TEXTS.iter().enumerate() {
+                    let _ = guarded(|| from_bytes::<T>(pt).map(|_| ()).map_err(|e| e.to_string()));
+                    ctx.transitions += 1;
+                    let again = decode_and_compare::<T>(&text, &want);
+                    if again != Got::Same {
+                        ctx.violation(&format!("C09/roundtrip/{shape}/after-refused-text:{k}/different-value"), nontrivial,
+                            || witness(json!({"text": text, "after_text": String::from_utf8_lossy(pt), "observed": match &again { Got::Err(e) | Got::Wrong(e) | Got::Panic(e) => e.clone(), Got::Same => String::new() }})));
+                        return;
+                    }
+                }
                 ctx.pass(&format!("round-trip:{shape}:{}", if hazard == "plain" { "plain" } else { "hazard" }), nontrivial, escaped || hazard != "plain");
                 if escaped && index % 97 == 5 { ctx.sample(|| json!({"shape": shape, "value": want, "text": text, "observed": "decodes back to an equal value"})); }
             }
